@@ -12,7 +12,7 @@ Thorough tier adds: the same on the prepared database, 300+60 seeded random exte
 and an unscheduled stress run (50 rounds x 16 processes, seeded 0..2 ms sleeps at the hook points, released together from a barrier).
 
 Both tiers also: every R/I interleaving of two processes on a database that already holds 1200 sessions (rows copied with sqlite3: result sets beyond
-one fetch chunk of the database layer), and one real-time scenario 'stalled commit' (process 0 is held 12 s - thorough also 20 s on a fresh file - between its
+one fetch chunk of the database layer), and one real-time scenario 'stalled commit' (process 0 is held 30 s - thorough also 45 s on a fresh file - between its
 INSERT and the COMMIT while process 1 creates its session). R is ANY read of the session table outside an insert (len, count, find, find_one, all, iteration).
 
 Oracle (parent side, over the recorded history + the table read with the stdlib sqlite3 module):
@@ -422,9 +422,9 @@ def run(ctx):
         _n, ext_complete, _r = exhaustive(ctx, env, 2, "fresh", ["R", "S", "C", "I"], "RSCI", max_runs=150 if ctx.quick else 600)
         ctx.extra["exhaustive_scope"] = ("exhaustive=true refers to the R/I interleavings for k=2,3 on every database state; "
                                          "extended R/S/C/I enumeration for k=2 on the fresh database complete: %s" % ext_complete)
-        stalled_commit(ctx, env, "prepared1", 12)
+        stalled_commit(ctx, env, "prepared1", 30)
         if not ctx.quick:
-            stalled_commit(ctx, env, "fresh", 20)
+            stalled_commit(ctx, env, "fresh", 45)
             exhaustive(ctx, env, 2, "prepared1", ["R", "S", "C", "I"], "RSCI", max_runs=600)
             sampled(ctx, env, 3, "fresh", ["R", "S", "C", "I"], "RSCI", 300)
             sampled(ctx, env, 3, "prepared1", ["R", "S", "C", "I"], "RSCI", 60)
